@@ -227,7 +227,7 @@ func init() {
 	add(Spec{
 		PropSpec: vlib.PropSpec{
 			ID: "C01", Level: "exploration",
-			Rule:        decodeCorpus + " total phase: each (type, input) is decoded under all 16 combinations of Lazy/NoCopy/Pool/DecodeStreamsAsDatagrams (recovery on), followed by a PRNG-ordered program of read-only uses with repeats (Layers, Layer of own and foreign types, LayerClass over 7 classes, Link/Network/Transport/Application/ErrorLayer, Metadata, Data, VerifyChecksums, flows, per layer LayerContents/Payload, VerifyChecksum; on 3 of the 16 option sets also String, Dump, LayerString/LayerDump/LayerGoString and %v/%+v of every layer), a 64 KiB tier, every prefix of one seed per type and the tail-stretch variants of 5/60 seeds; for every lazy option set ErrorLayer() is also asked first on a fresh packet and must agree with the fully decoded one. Oracles: no panic / fatal error / CPU-heap runaway; error-layer bookkeeping (every DecodeFailure or ErrorLayer-implementing layer is last, is what ErrorLayer() returns, ErrorLayer() is an element of Layers()); two independent could-not-decode witnesses (the same input panics with recovery off; DecodeFromBytes of the first layer returns an error) imply a non-nil error layer; error-ness agrees across Lazy/NoCopy/Pool for non-empty inputs. shapes phase: structured variants of 3/30 seeds per type - every region announced by a length byte or word cut down to 0..3 bytes (kept, zero, 0xff or small-type content) with the field adjusted, and the tail-stretch variants - each through one eager and one lazy packet with every renderer and accessor (the tiny-but-consistent options and identifiers that String methods meet for the first time). wellformed phase: packets built byte by byte with correct lengths and checksums must decode with a nil error layer and no truncation flag under all 16 option sets. Non-trivial = packet with >= 2 layers or an error layer; distinct by (type, input hash). scripted phase: a layer type registered by the harness whose decoder is scripted by the input bytes - each step adds one or two layers, claims the link/network/transport/application slot, marks truncation, hands over to itself, to the payload decoder, to a registered type or to a nil decoder, returns an error before or after adding its layer, panics, swallows the rest, or stops; every script of up to 3 (thorough 4) steps plus PRNG scripts: the part of the PacketBuilder protocol the library's own decoders never use is explored too. Each script goes through the total phase's oracle (16 option sets, accessors, bookkeeping).",
+			Rule:        decodeCorpus + " total phase: each (type, input) is decoded under all 16 combinations of Lazy/NoCopy/Pool/DecodeStreamsAsDatagrams (recovery on), followed by a PRNG-ordered program of read-only uses with repeats (Layers, Layer of own and foreign types, LayerClass over 7 classes, Link/Network/Transport/Application/ErrorLayer, Metadata, Data, VerifyChecksums, flows, per layer LayerContents/Payload, VerifyChecksum; on 3 of the 16 option sets also String, Dump, LayerString/LayerDump/LayerGoString and %v/%+v of every layer), a 64 KiB tier, every prefix of one seed per type and the tail-stretch variants of 5/60 seeds; for every lazy option set ErrorLayer() is also asked first on a fresh packet and must agree with the fully decoded one. Oracles: no panic / fatal error / CPU-heap runaway; error-layer bookkeeping (every DecodeFailure or ErrorLayer-implementing layer is last, is what ErrorLayer() returns, ErrorLayer() is an element of Layers()); two independent could-not-decode witnesses (the same input panics with recovery off; DecodeFromBytes of the first layer returns an error) imply a non-nil error layer; error-ness agrees across Lazy/NoCopy/Pool for non-empty inputs. shapes phase: structured variants of 3/12 seeds per type - every region announced by a length byte or word cut down to 0..3 bytes (kept, zero, 0xff or small-type content) with the field adjusted, and the tail-stretch variants - each through one eager and one lazy packet with every renderer and accessor (the tiny-but-consistent options and identifiers that String methods meet for the first time). wellformed phase: packets built byte by byte with correct lengths and checksums must decode with a nil error layer and no truncation flag under all 16 option sets. Non-trivial = packet with >= 2 layers or an error layer; distinct by (type, input hash). scripted phase: a layer type registered by the harness whose decoder is scripted by the input bytes - each step adds one or two layers, claims the link/network/transport/application slot, marks truncation, hands over to itself, to the payload decoder, to a registered type or to a nil decoder, returns an error before or after adding its layer, panics, swallows the rest, or stops; every script of up to 3 (thorough 4) steps plus PRNG scripts: the part of the PacketBuilder protocol the library's own decoders never use is explored too. Each script goes through the total phase's oracle (16 option sets, accessors, bookkeeping).",
 			Assumptions: []string{"'everything decoded => error layer nil' is asserted only where it is known by construction (well-formed constructed packets)", "checkptr instrumentation is on"},
 			Phases: []vlib.Phase{
 				{Name: "total", Bin: "vchild", Quick: 16, Thorough: 16},
